@@ -199,8 +199,16 @@ func guardedAccesses(c *Ctx, r *R, prefix, pkgSuffix, typ, field, mu string) {
 			if fa == nil || fieldName(fa.X.Type(), fa.Field) != field || !isNamedType(fa.X.Type(), pkgSuffix, typ) {
 				return
 			}
-			if _, fresh := fa.X.(*ssa.Alloc); fresh {
-				return // initialisation of an object nobody else can see yet
+			base := fa.X
+			for {
+				if inner, ok := base.(*ssa.FieldAddr); ok {
+					base = inner.X
+					continue
+				}
+				break
+			}
+			if _, fresh := base.(*ssa.Alloc); fresh {
+				return // initialisation of an object nobody else can see yet (possibly of a struct nested in it)
 			}
 			if held == nil {
 				held = locksIn(fn, entryLocks(c, fn, 0))
